@@ -40,6 +40,9 @@ pub struct KnownFinding {
     pub witness: String,
     #[serde(default)]
     pub commit: String,
+    /// the line format the brief asks for ("fixed: property=<id> <commit> <what failed>")
+    #[serde(default)]
+    pub line: String,
 }
 
 #[derive(Clone, Debug, Default, Serialize, Deserialize)]
@@ -589,6 +592,7 @@ pub fn run_check(cfg: &CheckCfg) -> CheckResult {
     let mut known_lines: Vec<String> = vec![];
     let mut violations_out: Vec<String> = vec![];
     let mut n_violations = 0;
+    let mut witnesses_replayed: Vec<String> = vec![];
     for k in known.findings.iter().filter(|k| k.property == cfg.id) {
         if k.witness.is_empty() {
             continue;
@@ -603,6 +607,12 @@ pub fn run_check(cfg: &CheckCfg) -> CheckResult {
         };
         let found = replay_found(&rep);
         let still = found.iter().any(|f| explains(k, f, &rep.case.history));
+        witnesses_replayed.push(format!(
+            "{} ({}): {}",
+            k.id,
+            k.status,
+            if still { "fails" } else { "passes" }
+        ));
         if k.status == "open" {
             if still {
                 known_lines.push(format!(
@@ -701,7 +711,7 @@ pub fn run_check(cfg: &CheckCfg) -> CheckResult {
     }
 
     let wall = t0.elapsed().as_secs_f64();
-    write_evidence(cfg, &agg, wall, n_violations, &known_lines, completed);
+    write_evidence(cfg, &agg, wall, n_violations, &known_lines, completed, &witnesses_replayed);
     for l in &known_lines {
         println!("{}", l);
     }
@@ -771,6 +781,7 @@ fn write_evidence(
     n_violations: usize,
     known_lines: &[String],
     completed: usize,
+    witnesses: &[String],
 ) {
     let level = match cfg.id {
         "C05" | "C16" | "C18" => "fault_enumeration",
@@ -821,6 +832,7 @@ fn write_evidence(
             },
             "determinism_rechecks_on_fresh_thread": agg.determinism_rechecks,
             "known_findings_reported": known_lines,
+            "witness_replays_of_fixed_or_open_findings": witnesses,
             "components": {
                 "real": ["rusty_parser::parse_main_str", "rusty_linter::core::lint", "instruction_generator::generate_instructions", "Interpreter (VM)", "ReadInputSource", "WritePrinter", "PrintState", "FileManager/FileInfo", "all built-ins", "error mapping and stack-trace assembly"],
                 "stub": ["stdin (SimRead)", "stdout and LPT1 (SimWrite)", "file system (SimFs behind hook H3)", "environment (SimEnv)", "screen (SimScreen)"]
